@@ -52,6 +52,10 @@ func (c *chunk) WriteTo(wr io.Writer) (int64, error) {
 	binary.Write(&bf, binary.BigEndian, int32(c.Len()))
 	bf.Write(c.data)
 	n, err := wr.Write(bf.Bytes())
+	if err == nil && n < bf.Len() {
+		// a destination that takes less than it was given without reporting an error
+		err = io.ErrShortWrite
+	}
 	if err != nil {
 		return int64(n), fmt.Errorf("could not write chunk: %v", err)
 	}
